@@ -22,8 +22,8 @@ VARIABLES order, data,          \* the map: order \in Seq(Keys), data \in [Keys 
           seen                  \* per thread: what a running Each has collected so far
 vars == <<order, data, writer, readers, pc, op, tmp, done, incs, seen>>
 
-Ops == {"Set", "SetToTop", "Update", "Get", "Has", "Len", "Each"}
-IsWrite(o) == o \in {"Set", "SetToTop", "Update"}
+Ops == {"Set", "SetToTop", "Update", "Get", "Has", "Len", "Each", "Map"}
+IsWrite(o) == o \in {"Set", "SetToTop", "Update", "Map"}
 HasKey(k) == data[k] # NoVal
 DomainSize == Cardinality({k \in Keys : HasKey(k)})
 
@@ -50,7 +50,8 @@ Acquire(t) ==
           ELSE writer = None /\ readers' = readers \cup {t} /\ UNCHANGED writer
   /\ pc' = [pc EXCEPT ![t] = "s1"]
   /\ seen' = [seen EXCEPT ![t] = << >>]
-  /\ UNCHANGED <<order, data, op, tmp, done, incs>>
+  /\ tmp' = [tmp EXCEPT ![t] = 0]
+  /\ UNCHANGED <<order, data, op, done, incs>>
 
 Release(t) ==
   /\ IF ~Locked THEN UNCHANGED <<writer, readers>>
@@ -72,6 +73,13 @@ S1(t) ==
             ELSE /\ tmp' = [tmp EXCEPT ![t] = data[op[t].k] + 1]     \* fn(m.data[k]) evaluated
                  /\ pc' = [pc EXCEPT ![t] = "s3"]
                  /\ UNCHANGED <<order, data, writer, readers, op, done, incs, seen>>
+       [] op[t].o = "Map" ->          \* one step per key, in order, under the write lock: m.data[k] = fn(k, m.data[k])
+            IF tmp[t] < Len(order)
+            THEN /\ data' = [data EXCEPT ![order[tmp[t] + 1]] = @ + 1]
+                 /\ incs' = [incs EXCEPT ![order[tmp[t] + 1]] = @ + 1]
+                 /\ tmp' = [tmp EXCEPT ![t] = @ + 1]
+                 /\ UNCHANGED <<order, writer, readers, pc, op, done, seen>>
+            ELSE Release(t) /\ UNCHANGED <<order, data, op, tmp, incs, seen>>
        [] op[t].o \in {"Get", "Has", "Len"} ->
             Release(t) /\ UNCHANGED <<order, data, op, tmp, incs, seen>>
        [] op[t].o = "Each" ->
@@ -109,7 +117,7 @@ MutualExclusion == writer # None => readers = {}
 OrderIsDomain == (\A t \in Threads : ~(IsWrite(op[t].o) /\ pc[t] \in {"s1", "s2", "s3"})) =>
                     (NoDup(order) /\ Range(order) = {k \in Keys : HasKey(k)})
 \* no update is lost: since the last Set of a key its value grew by exactly the completed increments
-NoLostUpdate == \A k \in Keys : (HasKey(k) /\ \A t \in Threads : ~(IsWrite(op[t].o) /\ op[t].k = k /\ pc[t] \in {"s1", "s2", "s3"}))
+NoLostUpdate == \A k \in Keys : (HasKey(k) /\ \A t \in Threads : ~(IsWrite(op[t].o) /\ (op[t].k = k \/ op[t].o = "Map") /\ pc[t] \in {"s1", "s2", "s3"}))
                                    => data[k] \in {1 + incs[k], 5 + incs[k]}
 \* a running Each never sees an absent value and never sees a key twice
 EachConsistent == \A t \in Threads : NoDup([i \in 1..Len(seen[t]) |-> seen[t][i][1]])
